@@ -156,7 +156,12 @@ def run(ctx):
         recs.append(o)
         src.append(k)
     nevals = sum(len(o['out']) for o in recs)
-    prej, irej = ucheck.conformance(ctx, os.path.join(SPEC, 'Conf_SafeMath.tla'), os.path.join(SPEC, 'Conf_SafeMath.cfg'), recs, 'safemath', chunk=3000)
+    # four equally loaded TLC runs: the costly complete-range cases come first in generation order, so deal the cases round-robin
+    order = [k for r in range(4) for k in range(r, len(recs), 4)]
+    recs = [recs[k] for k in order]
+    src = [src[k] for k in order]
+    prej, irej = ucheck.conformance(ctx, os.path.join(SPEC, 'Conf_SafeMath.tla'), os.path.join(SPEC, 'Conf_SafeMath.cfg'), recs, 'safemath',
+                                    chunk=max(100, -(-len(recs) // 4)))
     ctx.cov['tlc_checked_cases'] = nevals
     ctx.cov['impl_traces'] = nevals
     ctx.log('TLC evaluated %d cases (%d helper evaluations): P-rejected %d, aborted %d' % (len(recs), nevals, len(prej), len(aborts)))
